@@ -621,6 +621,11 @@ func (p *InlineParser) parseBackslash(state *inlineState, start int) (end int) {
 			// Hard line breaks not permitted at end of block.
 			newNode.kind = TextKind
 		} else {
+			// The line ending is part of the hard line break
+			// (otherwise it would be a soft line break of its own).
+			for end := state.spanEnd(); newNode.span.End < end && (state.source[newNode.span.End] == '\n' || state.source[newNode.span.End] == '\r'); {
+				newNode.span.End++
+			}
 			// Leading spaces at the beginning of the next line are ignored.
 			state.ignoreNextIndent = true
 		}
